@@ -30,11 +30,15 @@ Reason(r) ==
   CASE r.ev = "inject" ->
         LET t == r.txns[1]
             x == IF r.kind = "user" THEN InjectUser(s, pre, t, Par(r), locked) ELSE InjectForeign(s, pre, t, Par(r), locked)
+            admitted == r.res \in {"ok", "known"}
         IN IF r.res # x.res THEN
-              (IF x.res = "hard" /\ ~HoursValidSingle(s, t) /\ TxnShapeValid(s, t) THEN "C03:admitted-hours"     \* hours rule alone decides
-               ELSE IF x.res \in {"soft", "user"} \/ r.res \in {"soft", "user"} THEN "C11:class"
-               ELSE IF r.kind = "user" /\ x.res = "ok" /\ r.res = "hard" THEN "C06:refused-admissible"
-               ELSE "C06:admission")
+              (IF admitted /\ x.res = "hard" /\ ~HoursValidSingle(s, t) /\ TxnShapeValid(s, t) THEN "C03:admitted-hours"     \* the hours rule alone decides
+               ELSE IF admitted /\ x.res = "hard" THEN "C06:hard-invalid-transaction-admitted"
+               ELSE IF admitted /\ x.res = "user" THEN "C06:user-rule-violating-transaction-admitted"
+               ELSE IF admitted /\ x.res = "soft" THEN "C06:soft-invalid-user-transaction-admitted"
+               ELSE IF x.res \in {"ok", "known"} /\ r.res = "soft" THEN "C11:admissible-refused-as-soft"
+               ELSE IF x.res \in {"ok", "known"} THEN "C06:admission"
+               ELSE "C11:class")                                                                                                \* refused, but for the wrong kind of reason
            ELSE IF r.kind = "foreign" /\ r.softErr # x.softErr THEN "C11:soft-verdict"
            ELSE IF post # x.pool THEN (IF Hashes(post) # Hashes(x.pool) THEN "C06:pool-membership" ELSE "C06:valid-flag")
            ELSE "ok"
